@@ -1220,7 +1220,14 @@ class Pool:
             now = now or monotonic()
             lost_time, lost_ret = job._worker_lost
             if now - lost_time > job._lost_worker_timeout:
-                self.mark_as_worker_lost(job, lost_ret)
+                # report the loss once, and only if a worker that is gone
+                # still holds a part of the job: a handle that stays
+                # unresolved (imap), or whose part came back after all,
+                # must not be failed again at every later pass.
+                job._worker_lost = None
+                live = [w.pid for w in self._pool]
+                if any(pid not in live for pid in job.worker_pids()):
+                    self.mark_as_worker_lost(job, lost_ret)
 
         if shutdown and not len(self._pool):
             raise WorkersJoined()
